@@ -160,6 +160,38 @@ def dofile_row_scenario():
         pr.destroy()
 
 
+def cond_row_scenario():
+    """A build killed right after a conditional declaration (`if [ -e f ]; then redo-ifchange f; else redo-ifcreate f; fi`)
+    of a target whose watched file was removed: `redo-ifcreate f` has already replaced the `m` row (t, f) by a `c` row
+    (insert-or-replace on (target, source)); the target's own record is untouched, f is absent as the `c` row demands:
+    nothing says any more that t was built from f.  Found as the kernel-checked counterexample `C10.recovers_rich_is_false`
+    of the recovery proof over rich histories.  Returns (stale, info)."""
+    import signal, subprocess, time as _t
+    pr = Project()
+    try:
+        pr.write("t.do", 'if [ -e f ]; then redo-ifchange f; else redo-ifcreate f; fi\nif [ -e hold ]; then sleep 5; fi\nif [ -e f ]; then cat f; else echo no-f; fi\n')
+        pr.write("f", "v0\n")
+        rc, out, err = pr.run(["redo-ifchange", "t"])
+        if rc or pr.read("t") != b"v0\n":
+            return None, dict(problem="setup failed")
+        pr.rm("f")
+        pr.write("hold", "")
+        p = subprocess.Popen(["redo-ifchange", "t"], cwd=pr.root, env=clean_env(), stdout=subprocess.DEVNULL, stderr=subprocess.DEVNULL, stdin=subprocess.DEVNULL, start_new_session=True)
+        _t.sleep(1.0)
+        try:
+            os.killpg(p.pid, signal.SIGKILL)
+        except ProcessLookupError:
+            pass
+        p.wait()
+        pr.rm("hold")
+        rc3, out3, err3 = pr.run(["redo-ifchange", "t"], timeout=60)
+        got = pr.read("t")
+        info = dict(recovery_rc=rc3, t_after_recovery=repr(got), expected="b'no-f\\n'")
+        return (rc3 == 0 and got != b"no-f\n"), dict(info, other_problem=(rc3 != 0))
+    finally:
+        pr.destroy()
+
+
 def stale_tmp_scenario():
     """A killed build leaves its `$3` file behind; the next build of the target must start from an empty `$3` also when
     the target is built from another directory than its .do file's and the script appends to `$3`."""
@@ -224,6 +256,7 @@ def kill_window_matcher(listed_under):
     property `listed_under` (C10, and C01 — whose histories contain killed builds too)."""
     kf_stamp = [k for k in known_findings(listed_under) if k.get("id") == "stamp-before-record" and k.get("status") == "known"]
     kf_do = [k for k in known_findings(listed_under) if k.get("id") == "killed-build-forgets-old-dofile" and k.get("status") == "known"]
+    kf_cond = [k for k in known_findings(listed_under) if k.get("id") == "killed-build-replaces-dependency-row" and k.get("status") == "known"]
 
     def matcher(case, mon):
         """A stale target after an exit-0 build is the recorded finding only if an earlier build of the history was
@@ -253,6 +286,17 @@ def kill_window_matcher(listed_under):
                     touched = True
                 elif o[0] == "crash" and touched and len(cands) >= 2:
                     return "a build killed after the .do search, following a change of which .do candidate of %s exists, loses the row on the previously used .do: a later redo-ifchange exits 0 with the old script's output" % case.names[t]
+        # the conditional-declaration window: the stale target's script declares conditionally, one of the files it watches
+        # was created or removed, and a build was killed afterwards
+        if m and kf_cond:
+            t = int(m.group(1))
+            watched = set(cur.get(t, {}).get("cond", []))
+            touched = False
+            for o in case.ops[:mon[2] + 1]:
+                if o[0] in ("w", "r") and o[1] in watched:
+                    touched = True
+                elif o[0] == "crash" and touched:
+                    return "a build killed after a conditional declaration of %s, following the creation or removal of a file it watches, has already replaced the dependency row by one of the other kind: a later redo-ifchange exits 0 with the old output" % case.names[t]
         return None
     return matcher
 
@@ -334,6 +378,20 @@ def run(ctx):
             else:
                 p = write_replay("C10", "dofile-row", dict(kind="impl-monitor", info=info, scenario="default.do (used by u), t.do; build u, t; rm t.do; redo-ifchange t killed while default.do runs; redo-ifchange t"))
                 viol.append(Violation("C10", p, "kill after the .do search of a target whose specific .do was removed: recovery exits 0 but t=%s (expected the default rule's output)" % info["t_after_recovery"]))
+    # (5) the conditional-declaration window
+    if not viol:
+        stale, info = cond_row_scenario()
+        cov["distribution"]["cond_row_window"] = info
+        kf4 = [k for k in known_findings("C10") if k.get("id") == "killed-build-replaces-dependency-row" and k.get("status") == "known"]
+        if stale is None or info.get("other_problem"):
+            p = write_replay("C10", "cond-row", dict(kind="impl-monitor", info=info))
+            viol.append(Violation("C10", p, "kill after a conditional declaration: recovery misbehaves: %r" % info))
+        elif stale:
+            if kf4:
+                known_hit.append("kill right after `redo-ifcreate f` of a target that used to `redo-ifchange f` (f was removed): the `m` row (t, f) has already been replaced by a `c` row, the target's record is untouched; the recovery `redo-ifchange` exits 0 and t keeps the output computed from the removed f (add_dep insert-or-replace before anything is recorded)")
+            else:
+                p = write_replay("C10", "cond-row", dict(kind="impl-monitor", info=info, scenario="t.do: if [ -e f ]; then redo-ifchange f; else redo-ifcreate f; fi; (slow); cat f or echo no-f.  build t; rm f; redo-ifchange t killed during the slow part; redo-ifchange t"))
+                viol.append(Violation("C10", p, "kill after a conditional declaration whose file was removed: recovery exits 0 but t=%s (expected no-f)" % info["t_after_recovery"]))
     cov["known_hit"] = known_hit
     cov["rule"] += "; here with kill operations inserted before 45%% of the build commands (whole tree SIGKILLed when a chosen script reaches a chosen step), and a syscall-level kill enumeration (strace inject before the K-th rename/unlink/write/pwrite64/ftruncate/fsync of every process, %d points x {whole command, nested redo-ifchange}) on a 3-target project" % len(POINTS_THOROUGH if thorough else POINTS_QUICK)
     return cov
